@@ -2,6 +2,7 @@ package props
 
 import (
 	"reflect"
+	"regexp"
 	"strings"
 	"testing"
 
@@ -96,6 +97,8 @@ func TestC06_Retain(t *testing.T) {
 	})
 }
 
+var c06NotWord = regexp.MustCompile(`[^\w\s\-.]`)
+
 func noDup(xs []string) bool { return ref.Distinct(xs) }
 
 func hasPrefix(xs, prefix []string) bool {
@@ -152,7 +155,9 @@ func TestC06_Analysis(t *testing.T) {
 		// the user's own keyword-bearing words, first-occurrence order
 		var own []string
 		seen := map[string]bool{}
-		for _, w := range strings.Fields(strings.ToLower(a.Cleaned)) {
+		// the user's words: lower-cased text with everything but letters, digits, '_', '-', '.'
+		// and blanks turned into separators (derived from the statement, not from pq.Cleaned)
+		for _, w := range strings.Fields(c06NotWord.ReplaceAllString(strings.ToLower(q), " ")) {
 			if seen[w] {
 				continue
 			}
